@@ -232,7 +232,7 @@ theorem C02_manager_recovery_complete (w : World) (fp fq : Int) (fc cr : List (N
     (hscn.tiledK k hk) _ hw
   intro e he
   rw [hb] at hbox
-  rcases hbox with hbox | ⟨hbox, _⟩
+  rcases hbox with hbox | hbox
   · rw [← Option.some.inj hbox]
     exact hrec e he
   · cases hbox
